@@ -1137,7 +1137,8 @@ impl Read for Message<'_> {
             Self::Encrypted { edata, .. } => edata.read(buf),
         }?;
 
-        if read == 0 {
+        // (a read into an empty buffer returns 0 without being at the end of the data)
+        if read == 0 && !buf.is_empty() {
             self.check_trailing_data()?;
         }
 
